@@ -145,4 +145,81 @@ Section Hist.
   Qed.
   Lemma ids_fresh_inserts xs : NoDup (map id_of xs) -> ids_fresh id_of less (map (@OIns elt) xs).
   Proof. intros Nd. apply ops_ok_inserts; [constructor|]. cbn. rewrite app_nil_r. exact Nd. Qed.
+
+  (* ---- ANY history: every operation valid when it is issued (insert only non-members, remove only members) *)
+  Fixpoint tops_ok (t : tree) (ops : list (op elt)) : Prop :=
+    match ops with
+    | [] => True
+    | o :: rest =>
+        match o with OIns x => ~ In (id_of x) (ids t) | ORem i => In i (ids t) end
+        /\ tops_ok (rb_step id_of less agg t o) rest
+    end.
+
+  Lemma size_insert x (t : tree) :
+    NoDup (ids t) -> ~ In (id_of x) (ids t) -> NoDup (ids (insert less agg x t)) -> size (insert less agg x t) = S (size t).
+  Proof.
+    intros Nd0 Nx N1. rewrite !(size_length elt annot).
+    assert (Hel : forall j, In j (ids (insert less agg x t)) <-> j = id_of x \/ In j (ids t)).
+    { intros j. rewrite !in_map_iff. split.
+      - intros (y & <- & Hy). apply (insert_elems elt annot id_of less agg) in Hy. destruct Hy as [->|Hy]; [left; reflexivity|right; exists y; auto].
+      - intros [->|(y & <- & Hy)]; [exists x|exists y]; (split; [reflexivity|]); apply (insert_elems elt annot id_of less agg); auto. }
+    assert (G : forall l1 l2 : list N, NoDup l1 -> NoDup l2 -> (forall j, In j l1 <-> In j l2) -> length l1 = length l2).
+    { intros l1 l2 A B C. apply Nat.le_antisymm; apply NoDup_incl_length; auto; intros j Hj; apply C; exact Hj. }
+    rewrite <- (map_length id_of), <- (map_length id_of (inorder t)).
+    change (S (length (ids t))) with (length (id_of x :: ids t)). apply G; [exact N1|constructor; assumption|].
+    intros j. rewrite Hel. cbn [In]. intuition congruence.
+  Qed.
+
+  Theorem p_run_refines (ops : list (op elt)) : forall (t : tree) (s : pstate) ek fuel,
+    tops_ok t ops -> rb t -> NoDup (ids t) -> keys_ok elt annot id_of ek t -> repr s t ->
+    2 * Nat.log2 (length ops + size t + 1) + 2 < fuel ->
+    let t' := fold_left (rb_step id_of less agg) ops t in
+    exists s' ek', p_run fuel ops s ek = POk (s', ek')
+                   /\ repr s' t' /\ rb t' /\ NoDup (ids t') /\ keys_ok elt annot id_of ek' t'.
+  Proof.
+    induction ops as [|o ops IH]; intros t s ek fuel Hok Hrb Nd Hk H Hf; unfold p_run; cbn [fold_left].
+    - exists s, ek. auto.
+    - cbn [tops_ok] in Hok. destruct Hok as [Ho Hok]. cbn [length] in Hf.
+      pose proof (rb_height elt annot t Hrb) as Hh.
+      assert (Hlog : Nat.log2 (size t + 1) <= Nat.log2 (S (length ops) + size t + 1)) by (apply Nat.log2_le_mono; lia).
+      destruct o as [x|i]; cbn [p_step rb_step] in *.
+      + assert (Hk' : keys_ok elt annot id_of (set_key elt id_of ek x) t).
+        { intros y Hy. unfold set_key. destruct (N.eqb_spec (id_of y) (id_of x)) as [E0|_]; [|apply Hk, Hy].
+          exfalso. apply Ho. rewrite <- E0. apply in_map, Hy. }
+        assert (Hx' : set_key elt id_of ek x (id_of x) = x) by (unfold set_key; rewrite N.eqb_refl; reflexivity).
+        destruct (p_insert_refines elt annot id_of less agg aeqb (set_key elt id_of ek x) x t s fuel) as (s1 & E1 & R1 & N1);
+          try assumption; [constructor; assumption|lia|].
+        rewrite E1.
+        pose proof (size_insert x t Nd Ho N1) as Hsz.
+        destruct (IH (insert less agg x t) s1 (set_key elt id_of ek x) fuel) as (s' & ek' & E' & R');
+          [exact Hok|apply insert_rb, Hrb|exact N1| |exact R1| |].
+        * intros y Hy. apply (insert_elems elt annot id_of less agg) in Hy. destruct Hy as [->|Hy]; [exact Hx'|apply Hk', Hy].
+        * rewrite Hsz. replace (length ops + S (size t) + 1) with (S (length ops) + size t + 1) by lia. exact Hf.
+        * exists s', ek'. unfold p_run in E'. auto.
+      + destruct (p_remove_refines elt annot id_of agg aeqb ek i t s fuel Nd Hrb Ho H) as (s1 & E1 & R1 & N1); [lia|].
+        rewrite E1.
+        pose proof (size_remove elt annot id_of agg i t Nd) as Hsz.
+        destruct (IH (remove id_of agg i t) s1 ek fuel) as (s' & ek' & E' & R');
+          [exact Hok|apply remove_rb, Hrb|exact N1| |exact R1| |].
+        * intros y Hy. apply Hk. rewrite (inorder_remove elt annot id_of agg i t Nd) in Hy. apply filter_In in Hy. tauto.
+        * assert (Nat.log2 (length ops + size (remove id_of agg i t) + 1) <= Nat.log2 (S (length ops) + size t + 1))
+            by (apply Nat.log2_le_mono; lia). lia.
+        * exists s', ek'. unfold p_run in E'. auto.
+  Qed.
+
+  (* the documented precondition of Properties_C06 (ids_fresh) gives [tops_ok] for a strict weak order *)
+  Section Order.
+    Hypothesis less_asym : forall a b, less a b = true -> less b a = false.
+    Hypothesis less_negtrans : forall a b c, less a b = false -> less b c = false -> less a c = false.
+    Lemma ops_ok_tops ops : forall (t : tree) l,
+      inorder t = l -> sorted less l -> NoDup (RbInorder.ids id_of l) -> ops_ok id_of less l ops -> tops_ok t ops.
+    Proof.
+      induction ops as [|o ops IH]; intros t l Ht Hs Hn Hok; cbn [tops_ok ops_ok] in *; [exact I|].
+      destruct Hok as [Ho Hok].
+      destruct (list_step_inv elt id_of less less_asym less_negtrans l o Hs Hn) as [Hs' Hn']; [destruct o; auto|].
+      split.
+      - subst l. destruct o; exact Ho.
+      - apply (IH _ (list_step id_of less l o)); auto. apply step_refines; assumption.
+    Qed.
+  End Order.
 End Hist.
